@@ -25,6 +25,9 @@ RULE = ("metamorphic on the real code (model-free verdict: image of the program 
         "(2b) '.once' under path spellings, on REAL files in a scratch directory (path handling goes through os.path): a '.once' file included 2-3 "
         "times, directly or through a nested include resolved relative to the including file, each time under another spelling of its path "
         "(lib.mac, ./lib.mac, sub/../lib.mac, absolute normalised, absolute with /./, // or /sub/../) = the program with only the first inclusion. "
+        "(2c) 2-3 linked files with disjoint private names that reference each other's exported symbols (name::, name == v, .extern name before / "
+        "after the definition, .extern all; labels and constants; either link order), the reference and the '.extern' operand spelled in another "
+        "letter case than the definition in 60% of the cases, 15% with a case-variant duplicate export (must fail in both forms) = the concatenation. "
         "(3) the same five transformations on rich programs from tools/proggen.py (labels, constants, forward references, exported symbols across "
         "files, local labels, repeats, strings, skips).  non-trivial = distinct program text whose transformation changes the text and, for repeat, "
         "has count >= 2 and a '.' / hoisted / impure / branch feature.  Domain restriction: '. = X' inside a body is generated only after a leading "
@@ -604,6 +607,108 @@ def _fs_back(fs):
 
 
 # ------------------------------------------------------------------------------------------------
+# (2c) linked files that use each other's exported symbols, in any letter case
+def _recase(rng, name, vary):
+    if not vary:
+        return name
+    c = rng.randrange(3)
+    if c == 0:
+        return name.upper()
+    if c == 1:
+        return name.capitalize()
+    return "".join(ch.upper() if i % 2 else ch for i, ch in enumerate(name))
+
+
+def export_case(rng):
+    """-> (kind, files) : 2-3 files with disjoint names; every cross-file reference goes through an export"""
+    r = rng
+    m = r.choice([2, 2, 3])
+    vary = r.random() < 0.6            # references spelled in another letter case than the definition
+    dup = r.random() < 0.15            # a case-variant duplicate of an export: duplicate-symbol in both forms
+    syms = {}                          # name -> (file, is_label)
+    bodies = [[] for _ in range(m)]
+    forms_used = set()
+    # '.extern all' exports every symbol of its file: in the concatenation that would include the other files'
+    # explicit exports a second time, so a program either has ONE exporting file that uses '.extern all'
+    # (the other files only refer to it) or explicit exports only
+    allfile = r.randrange(m) if r.random() < 0.25 else None
+    for i in range(m):
+        extern_all = (i == allfile)
+        if allfile is not None and not extern_all:
+            bodies[i] += ["pv%dq = %s" % (i, oct(r.randrange(1, 100))[2:]), ".word pv%dq" % i]
+            continue
+        if extern_all and r.random() < 0.5:
+            bodies[i].append(".extern " + _recase(r, "all", vary and r.random() < 0.3))
+        for j in range(r.randrange(1, 4)):
+            name = "ex%d%sq" % (i, "abc"[j])
+            dname = _recase(r, name, vary and r.random() < 0.3)
+            is_label = r.random() < 0.5
+            form = "all" if extern_all else r.choice(["double", "extern-before", "extern-after"])
+            forms_used.add(form + ("-label" if is_label else "-const"))
+            if form == "extern-before":
+                bodies[i].append(".extern " + _recase(r, name, vary and r.random() < 0.5))
+            sep = {"double": ("::", " == "), "all": (":", " = "), "extern-before": (":", " = "), "extern-after": (":", " = ")}[form]
+            if is_label:
+                bodies[i] += [dname + sep[0], ".word %s" % oct(r.randrange(1, 0o7777))[2:]]
+            else:
+                bodies[i].append("%s%s%s" % (dname, sep[1], oct(r.randrange(0, 0o377))[2:]))
+            if form == "extern-after":
+                bodies[i].append(".extern " + _recase(r, name, vary and r.random() < 0.5))
+            syms[name] = (i, is_label)
+        if extern_all and not any(l.lower().startswith(".extern all") for l in bodies[i]):
+            bodies[i].append(".extern " + _recase(r, "all", vary and r.random() < 0.3))
+        # private (not exported) names, disjoint between the files
+        if not extern_all:
+            bodies[i] += ["pv%dq = %s" % (i, oct(r.randrange(1, 100))[2:]), ".word pv%dq" % i]
+    names = sorted(syms)
+    for i in range(m):
+        for _ in range(r.randrange(1, 4)):
+            n = r.choice(names)
+            ref = _recase(r, n, vary)
+            c = r.randrange(4)
+            if c == 0:
+                bodies[i].append(".word " + ref)
+            elif c == 1:
+                bodies[i].append("mov #%s, r%d" % (ref, r.randrange(6)))
+            elif c == 2 and syms[n][1]:
+                bodies[i].append("mov %s, @#%s" % (ref, ref))
+            else:
+                bodies[i].append(".word %s + 2, %s - 1" % (ref, ref))
+    if dup:
+        n = r.choice(names)
+        j = r.choice([k for k in range(m) if k != syms[n][0]])
+        bodies[j] += [_recase(r, n, True) + ("::" if r.random() < 0.5 else " == 5"), "nop"]
+    order = list(range(m))
+    r.shuffle(order)
+    files = []
+    if r.random() < 0.5:
+        bodies[order[0]].insert(0, ".link %s" % oct(r.choice([0o1000, 0o2000, 0o40000]))[2:])
+    for i in order:
+        files.append(("g%d.mac" % i, "\n".join(bodies[i]) + "\n"))
+    kind = "exports:" + ("case-varied" if vary else "same-case") + (":dup" if dup else "") + (":reversed" if order != sorted(order) else "")
+    return kind, files, forms_used
+
+
+def exports_family(rep, rng, n_cases):
+    items = [export_case(rng) for _ in range(n_cases)]
+    pairs = [(files, [("g.mac", "".join(t for _, t in files))], None) for _, files, _ in items]
+    outs = run_pairs(pairs)
+    for (kind, files, forms), (fa, fb, _), (a, b) in zip(items, pairs, outs):
+        rep.add_eval(2)
+        rep.count("files:%s:%s" % (kind.replace("exports:", "exports-"), a["outcome"]))
+        for f in forms:
+            rep.count("export-form:" + f)
+        rep.nontrivial(("exports", digest(*[t for _, t in files])))
+        if view(a) != view(b):
+            rep.violate("link-exports:" + digest(*[t for _, t in files]),
+                        "files that use each other's exported symbols do not link to what their concatenation assembles to",
+                        {"files": [list(x) for x in fa], "files_transformed": [list(x) for x in fb], "transformation": "concat (" + kind + ")"},
+                        impl=brief(a), impl_transformed=brief(b))
+    if items:
+        rep.sample({"exports_program": [list(x) for x in items[0][1]], "impl": brief(outs[0][0])})
+
+
+# ------------------------------------------------------------------------------------------------
 # (2b) '.once' and the spelling of include paths: real files
 ROOT = "{ROOT}"
 LIB_SPELLINGS = ["lib.mac", "./lib.mac", "sub/../lib.mac", ROOT + "/lib.mac", ROOT + "/./lib.mac", ROOT + "//lib.mac",
@@ -719,6 +824,7 @@ def explore(rep, br, tier, seed):
     except RuntimeError as ex:
         err = err or ex
     paths_family(rep, rng, 60 if quick else 600)
+    exports_family(rep, rng, 120 if quick else 1500)
     rich_family(rep, rng, 60 if quick else 1200)
     probe_dot_assign(rep)
     rep.notes.append("repeat/unroll and the five file transformations are judged on the implementation alone; the Coq judge repeats the comparison "
@@ -761,6 +867,7 @@ def search(rep, br, tier, seed):
         repeat_family(rep, rng, 600, 0, with_model=False, label="search-repeat")
         structure_family(rep, rng, 300, with_model=False)
         paths_family(rep, rng, 100)
+        exports_family(rep, rng, 200)
         rich_family(rep, rng, 80)
         if any(v["signature"] != KNOWN_END for v in rep.violations):
             return
